@@ -1574,6 +1574,71 @@ def compare(W, ops, recs, mrecs):
     return None
 
 
+def optimizer_findings(seed):
+    """In-place optimiser steps followed by the change notification (Optimizer._run): after run() — and at
+    whatever the convergence monitor evaluates in between — every derived parameter and model of the graph
+    returns what a freshly built copy holding the final leaf values returns."""
+    torch = impl.load()
+    from torchtree.core.abstractparameter import AbstractParameter
+    from torchtree.core.model import CallableModel
+    from torchtree.core.utils import process_object
+    rng = random.Random(seed + 5)
+    found, nrun = {}, 0
+
+    def graph():
+        r = lambda a, b: round(rng.uniform(a, b), 3)
+        return [
+            exp_of("t", P("z.unres", [r(-0.5, 0.5), r(-0.5, 0.5)], REAL)),
+            dist("prior_t", "LogNormal", "t", {"loc": P("loc", [r(-0.3, 0.3), r(-0.3, 0.3)], REAL),
+                                                "scale": exp_of("scale", P("scale.unres", [r(-0.2, 0.4)], REAL))}),
+            dist("prior_loc", "Normal", "loc", {"loc": 0.0, "scale": 2.0}),
+            joint("joint", ["prior_t", "prior_loc", "t", "scale"]),
+        ]
+
+    def observe(dic):
+        out = {}
+        for k, v in dic.items():
+            with torch.no_grad():
+                if isinstance(v, CallableModel):
+                    out[k] = v().detach().clone()
+                elif isinstance(v, AbstractParameter):
+                    out[k] = v.tensor.detach().clone()
+        return out
+
+    for alg, opts in (("torch.optim.SGD", {"lr": 0.05}), ("torch.optim.Adam", {"lr": 0.1}),
+                      ("torch.optim.SGD", {"lr": 0.03, "momentum": 0.9})):
+        for iters in (1, 3):
+            objs = graph()
+            opt = {"id": "opt", "type": "Optimizer", "algorithm": alg, "options": opts, "maximize": True,
+                   "iterations": iters, "loss": "joint", "parameters": ["z.unres", "loc", "scale.unres"]}
+            try:
+                dic = {}
+                for o in strip(copy.deepcopy(objs)) + [opt]:
+                    process_object(o, dic)
+                observe(dic)                 # everything evaluated (and cached) once before the run
+                import contextlib, io
+                with contextlib.redirect_stdout(io.StringIO()), contextlib.redirect_stderr(io.StringIO()):
+                    dic["opt"].run()
+                got = observe(dic)
+                leaves = {k: dic[k].tensor.detach().tolist() for k in ("z.unres", "loc", "scale.unres")}
+                ref = observe(build(dict(objects=objs), leaves))
+            except Exception as e:
+                key = f"C11:optimizer:raises:{type(e).__name__}"
+                found.setdefault(key, (key, f"{alg} {iters} iterations: {type(e).__name__}: {str(e)[:160]}",
+                                       dict(optimizer=opt, objects=strip(objs))))
+                continue
+            nrun += 1
+            for k in sorted(ref):
+                if k in got and not torch.allclose(got[k], ref[k], rtol=1e-9, atol=1e-12, equal_nan=True):
+                    key = f"C11:optimizer:stale-after-run:{type(dic[k]).__name__}"
+                    found.setdefault(key, (key, f"after Optimizer.run() ({alg}, {iters} iteration(s)) {k} "
+                                                f"({type(dic[k]).__name__}) returns {got[k].reshape(-1).tolist()[:4]} but a "
+                                                f"freshly built copy holding the final parameter values returns "
+                                                f"{ref[k].reshape(-1).tolist()[:4]}",
+                                           dict(optimizer=opt, objects=strip(objs), final_leaves=leaves, observed=k)))
+    return list(found.values()), nrun
+
+
 def blind_search(seed):
     """Used when the translator refuses the source: the property on the implementation without any
     wiring knowledge.  For every instance and every registered leaf: evaluate every callable model and
@@ -1735,6 +1800,9 @@ def run(tier, seed, replay=None):
         rep.violation(f"C11:extraction-failed:{name}", f"wiring of instance {name} cannot be extracted: {e}",
                       dict(spec=name, error=e), False)
 
+    opt_fs, n_opt = optimizer_findings(seed)
+    for f in opt_fs:
+        rep.violation(*f)
     bad, nrt = runtime_crosscheck(table)
     for b in bad[:3]:
         rep.violation("C11:translator-runtime-mismatch", b, dict(error=bad), False)
@@ -1943,7 +2011,7 @@ def run(tier, seed, replay=None):
                 "copy (rtol 1e-9); non-trivial = updates touch >= 2 different parameters and at least one "
                 "evaluation; distinct = distinct (instance, abstract operation sequence)")
     rep.extra = dict(
-        input_distribution=opdist, traces_validated_against_impl=len(mres), model_undefined=0,
+        input_distribution=opdist, optimizer_runs_compared_with_fresh_rebuild=n_opt, traces_validated_against_impl=len(mres), model_undefined=0,
         model_pessimistic_evaluations=pess, stale_evaluations_on_impl=nstale, raising_updates_on_impl=nraise,
         translator_units=[f"{len(table)} classes -> gen/G_handlers.v (handlers, tensor setters, cache flags, "
                           "listener attribute, fire_* loops)"],
